@@ -691,8 +691,14 @@ func handleReferences[P topLevelEntryProto, S topLevelEntryStruct](r *RIB, niRIB
 }
 
 func (r *RIB) handleNHGReferences(niRIB *RIBHolder, original *aft.Afts_NextHopGroup, new *aftpb.Afts_NextHopGroup) {
-	// Increment all the new references.
+	// Increment all the new references. The installed group holds a next-hop
+	// once however many times the message lists it, so it is counted once.
+	counted := map[uint64]bool{}
 	for _, nh := range new.NextHop {
+		if counted[nh.GetIndex()] {
+			continue
+		}
+		counted[nh.GetIndex()] = true
 		niRIB.incNHRefCount(nh.GetIndex())
 	}
 
